@@ -371,6 +371,41 @@ class Analysis:
     _SIZES = {"char": 1, "signed char": 1, "unsigned char": 1, "void": 1, "short": 2, "unsigned short": 2, "int": 4,
               "unsigned int": 4, "long": 8, "unsigned long": 8, "long long": 8, "unsigned long long": 8, "float": 4, "double": 8}
 
+    def literal_lengths(self, arg):
+        """lengths of the string literals a source argument can be: a literal, a conditional of literals, or a local
+        pointer that is only ever assigned such expressions; None when anything else can reach it"""
+        def of(e, depth=0):
+            e = e.strip_all_casts()
+            while e.k == "ParenExpr":
+                e = e.child(0).strip_all_casts()
+            if e.k == "StringLiteral":
+                return {len(e.get("str", ""))}
+            if e.k == "ConditionalOperator":
+                a, b = of(e.child(1), depth), of(e.child(2), depth)
+                return (a | b) if a and b else None
+            if e.k == "DeclRefExpr" and e.get("decl", {}).get("kind") == "local" and depth < 2:
+                name = e["decl"]["name"]
+                out = set()
+                for nn, t in C.stores(self.fn):
+                    if t.get("path") == name:
+                        if nn.get("op") != "=":
+                            return None
+                        r = of(nn.child(1), depth + 1)
+                        if not r:
+                            return None
+                        out |= r
+                for dn in self.fn.nodes.values():
+                    if dn.k == "DeclStmt":
+                        for dd in dn.get("decls", []):
+                            if dd["name"] == name and "init" in dd:
+                                r = of(self.fn.nodes[dd["init"]], depth + 1)
+                                if not r:
+                                    return None
+                                out |= r
+                return out or None
+            return None
+        return of(arg)
+
     def elem_bytes(self, arg):
         """size in bytes of what a pointer argument points to (1 when unknown: capacities then count bytes)"""
         x = arg
@@ -690,6 +725,15 @@ class Analysis:
             if d is not None:
                 self.oblige(st, n, "call", d[0], d[1], ext, n.src)
                 st.slen.pop(d[0], None)
+                # strncpy terminates the copy only when the source is shorter than the count: with a source that is one of
+                # a few literals the result is a string iff the longest of them is; otherwise some count leaves no NUL
+                lens = self.literal_lengths(args[1])
+                if lens and ext is not None:
+                    if entails(st.cons, le(Lin.const(max(lens) + 1), ext)):
+                        st.slen[d[0]] = ("le", d[1] + Lin.const(max(lens)))
+                    else:
+                        st.unterm_copy = dict(getattr(st, "unterm_copy", {}))
+                        st.unterm_copy[d[0]] = (ext, n, min(lens))
             elif self.tracked_dest(args[0]):
                 self.unknown_dest(n, args[0])
         elif kind == "strcpy":
@@ -798,6 +842,17 @@ class Analysis:
                     wit = None
                     nw = getattr(st, "nothing_written", {}).get(d[0])
                     text = "strlen(%s): no NUL is known to lie inside the buffer" % args[0].src
+                    uc = getattr(st, "unterm_copy", {}).get(d[0])
+                    if uc is not None and nw is None:
+                        ext_, call_, shortest = uc
+                        syms_ = set(ext_.syms())
+                        if not (syms_ & st.havoc) and not (syms_ & st.dropped):
+                            rel_ = [le(ext_, Lin.const(shortest)), le(Lin.const(1), ext_)] + [c for c in st.cons if c.syms() & syms_]
+                            m_ = find_model(rel_, syms_ | set().union(*[c.syms() for c in rel_]))
+                            if m_ is not None:
+                                wit = {k.replace("@0", ""): int(v) for k, v in m_.items()}
+                                text = ("strlen(%s) after `%s`: strncpy stores no NUL when the source (%d characters or more) does not "
+                                        "fit the count, the scan runs past the buffer" % (args[0].src, call_.src[:50], shortest))
                     ut = getattr(st, "unterminated", {}).get(d[0])
                     if ut is not None and nw is None:
                         ext, call, digits, radix, vi = ut
